@@ -309,7 +309,7 @@ def run_lines(exe, lines, chunks=None, timeout=1800, env=None):
             rc, so, se = -999, (ex.stdout or b""), b"timeout: the driver did not return (endless loop?)"
         outl = so.decode("utf-8", "replace").split("\n")
         if outl and outl[-1] == "": outl.pop()
-        elif rc == -999 and outl: outl.pop()       # partial last line
+        elif rc != 0 and outl: outl.pop()          # the driver died in the middle of a (buffered) line: that line is not an answer
         if rc != 0 or len(outl) != len(part):
             # crashed: mark the first unanswered request, then run the rest one request per process
             k = min(len(outl), len(part) - 1)
@@ -372,6 +372,28 @@ class Findings:
             state = "witness still fails" if sf else "witness no longer fails on this tree"
             chk.known_finding("%s [%s] %s: witness %s -> %s (%s; %d case(s) of this shape in this run)" % (
                 f["id"], f["shape"], f.get("call_site", ""), f.get("witness", ""), f.get("what", ""), state, self.hits[f["shape"]]))
+
+def wrapper_check(chk, exes, pairs, mine, describe):
+    """Convenience entry points against their general forms (harness op `wrap`): the checks compare the general forms
+    (…ExMm) with the model; this establishes that the wrappers (…, …Ex) are those forms with the documented defaults.
+    pairs: [(text a, text b)] as encoded fields; mine: names this property is responsible for."""
+    reqs = ["wrap %s %s" % (a, b) for a, b in pairs]
+    n = 0
+    for fl in ("A", "W", "A_asan"):
+        if fl not in exes: continue
+        out = run_lines(exes[fl], reqs if fl != "A_asan" else reqs[::5])
+        n += len(out)
+        for rq, o in zip(reqs if fl != "A_asan" else reqs[::5], out):
+            if o in ("wrap ok", "wrap parse-error"): continue
+            if not o.startswith("wrap !"):
+                chk.violation("crash or sanitizer report in a convenience entry point: " + o[:200], {"request": rq, "build": fl, "impl": o}); continue
+            names = o[6:].split(",")
+            hit = [x for x in names if x in mine or x == "memory"]
+            if hit:
+                chk.violation(describe % ", ".join(hit), {"request": rq, "a": show(rq.split()[1]), "b": show(rq.split()[2]), "build": fl, "impl": o})
+    chk.cov["evaluations"] += n
+    chk.cov.setdefault("distribution", {})
+    return n
 
 # ----------------------------------------------------------------------------- verdicts and evidence
 # evidence/ and replays/ go under VERIF_OUT when set (self-tests on scratch copies must not overwrite the real tree's evidence)
